@@ -22,7 +22,8 @@ U16OfI16(d) == IF d < 0 THEN d + 65536 ELSE d
 \* u16 wrapping_add of the code and the stored field
 WrapAdd16(c, du) == IF c + du >= 65536 THEN c + du - 65536 ELSE c + du
 \* x & 0xFFFF on a two's complement i32: the low 16 bits of the 32-bit pattern of x
-And16I32(x) == LET pat == IF x < 0 THEN x + 4294967296 ELSE x IN pat - (pat \div 65536) * 65536
+Two32 == 65536 * 65536            \* 4294967296 (TLC cannot read a literal this big)
+And16I32(x) == LET pat == IF x < 0 THEN x + Two32 ELSE x IN pat - (pat \div 65536) * 65536
 \* "as u16" after the mask is the identity; by cases on the plain sum
 ByCases(c, d) == IF c + d < 0 THEN c + d + 65536 ELSE IF c + d > 65535 THEN c + d - 65536 ELSE c + d
 
